@@ -27,7 +27,7 @@ exits 0) and records the outcome; nothing is ever committed to `/repo`.
 The translator alone (regenerated `Gen` files differ from the unchanged tree's, or a fact is not found) sees 22 of
 the {n}: the changes to tables, dispatch arms, constants, lock order and helper functions; all the others keep every
 generated definition and are decided by the correspondence run and the property predicates. First-contact detection
-(quick tier, concrete input, before any strengthening) was 31/40, 21/40, 21/40, 20/40, 25/40 and 27/41 in rounds 1 to 6.
+(quick tier, concrete input, before any strengthening) was 31/40, 21/40, 21/40, 20/40, 25/40 and 26/40 in rounds 1 to 6.
 
 What each round's first run missed, and what was strengthened (all {n} are caught by the quick tier now, with a
 concrete failing input except where the table below says otherwise; `result.json` holds the re-run):
@@ -106,7 +106,7 @@ concrete failing input except where the table below says otherwise; `result.json
 | `C15-r5a` (no input), `C15-r5b` | `isWriting` left set by a failed flush (later writes panic); a Close frame sent as a prepared message did not latch | library panics on driver goroutines are outcomes (and `check` reports a panic that stops the harness as `no_panic` with its stack); the Close frame sent by the writing goroutine in every way the API offers, pingers running throughout |
 | `C18-r5a` (thorough only), `C18-r5b` | the pid cached lazily without synchronisation; the context key turned into a plain string | the first lines of the process come from 16 goroutines at once, under the race detector in both tiers; application values under plain-string keys of any spelling are not the connection id |
 
-**Round 6** (41 changes — C06 got two from a second agent run —, 14 missed or caught without an input; brief: which error comes
+**Round 6** (40 changes, 14 missed or caught without an input; brief: which error comes
 back, unusual call orders, faults in the middle of an operation, decoder-only inputs, the second element, two options together)
 
 | missed | why | strengthening |
